@@ -36,7 +36,7 @@ def plan(tier):
 
 def floors(tier):
     return {"nontrivial": 50, "held:main": 150, "held:integrated": 40, "counter:rhs_checks": 500, "counter:jacobian_checks": 500,
-            "counter:integrated_sensitivity_checks": 100, "class:single-state": 10, "class:parameter-free": 10, "class:nP!=nS-1": 60,
+            "counter:integrated_sensitivity_checks": 100, "counter:parameter_changes_between_evaluations": 150, "class:single-state": 10, "class:parameter-free": 10, "class:nP!=nS-1": 60,
             "class:time-dependent": 15, "class:derived-param": 15}
 
 
@@ -76,7 +76,7 @@ def fd_jacobian(f, z, t):
 
 
 def run_case(rng, idx, tier, lane, ctx):
-    counters = {"rhs_checks": 0, "jacobian_checks": 0, "integrated_sensitivity_checks": 0}
+    counters = {"rhs_checks": 0, "jacobian_checks": 0, "integrated_sensitivity_checks": 0, "parameter_changes_between_evaluations": 0}
     wit = []
 
     def bad(what, **kw):
@@ -115,38 +115,60 @@ def run_case(rng, idx, tier, lane, ctx):
         x, t, th = G.eval_point(rng, spec, lo=0.5, hi=6.0)
         if nP:
             m.parameters = list(th)
-        sample = {"spec": spec, "x": x, "t": t, "theta": th}
-        for iv in (False, True):
-            for by_state in ((False, True) if not iv else (False,)):
-                if not iv and nP == 0:
-                    continue
-                label = ("ode_and_sensitivityIV" if iv else "ode_and_sensitivity") + ("(by_state=True)" if by_state else "")
-                z = np.array(list(x) + [rng.uniform(-2, 2) for _ in range(nS * nP + (nS * nS if iv else 0))], dtype=float)
-                rr = ref_rhs(ref, th, by_state, iv)
-                exp = rr(z, t)
-                try:
-                    with contextlib.redirect_stdout(io.StringIO()):
-                        got = np.asarray(m.ode_and_sensitivityIV(z, t) if iv else m.ode_and_sensitivity(z, t, by_state), dtype=float).reshape(-1)
-                    counters["rhs_checks"] += 1
-                    sc = 1.0 + float(np.max(np.abs(exp)))
-                    if got.shape != exp.shape or not np.all(np.abs(got - exp) <= 1e-10 * sc):
-                        bad("%s differs from [f, vec(J S + G)(, vec(J S0))] in the documented layout" % label, got=got.tolist(), expected=exp.tolist())
-                except Exception as e:
-                    bad("%s raised" % label, error=short_exc(e), tb=tb_tail(e))
-                jl = label.replace("ode_and_sensitivityIV", "ode_and_sensitivityIV_jacobian").replace("ode_and_sensitivity(", "ode_and_sensitivity_jacobian(")
-                if jl == label:
-                    jl = label + "_jacobian"
-                try:
-                    with contextlib.redirect_stdout(io.StringIO()):
-                        gotJ = np.asarray(m.ode_and_sensitivityIV_jacobian(z, t) if iv else m.ode_and_sensitivity_jacobian(z, t, by_state), dtype=float)
-                    counters["jacobian_checks"] += 1
-                    expJ = fd_jacobian(rr, z, t)
-                    sc = 1.0 + float(np.max(np.abs(expJ)))
-                    if gotJ.shape != expJ.shape or not np.all(np.abs(gotJ - expJ) <= 1e-5 * sc):
-                        bad("%s is not the derivative of the corresponding right-hand side" % jl, shape=list(gotJ.shape), expected_shape=list(expJ.shape),
-                            max_error=float(np.max(np.abs(gotJ - expJ))) if gotJ.shape == expJ.shape else None, scale=sc, nS=nS, nP=nP)
-                except Exception as e:
-                    bad("%s raised" % jl, error=short_exc(e), tb=tb_tail(e), nS=nS, nP=nP)
+        # rounds: the same model object is evaluated at the SAME state and time under successive parameter assignments (and then at a
+        # second point): each evaluation must use the parameters in force, whatever was evaluated before
+        rounds = [(list(th), list(x), t)]
+        if nP:
+            for _ in range(rng.randint(1, 2)):
+                th2 = [round(v * rng.uniform(0.5, 1.8) + 0.01, 4) for v in rounds[-1][0]]
+                rounds.append((th2, list(x), t))
+        x2, t2, _th = G.eval_point(rng, spec, lo=0.5, hi=6.0)
+        rounds.append((list(rounds[-1][0]), list(x2), t2))
+        sample = {"spec": spec, "rounds": rounds}
+        for rnd, (th, x, t) in enumerate(rounds):
+          if nP and rnd:
+            fmt = rng.choice(["list", "dict", "partial", "array"])
+            if fmt == "list":
+                m.parameters = list(th)
+            elif fmt == "array":
+                m.parameters = np.array(th)
+            elif fmt == "dict":
+                m.parameters = dict(zip(spec["params"], th))
+            else:
+                for pn, pv in zip(spec["params"], th):
+                    m.parameters = {pn: pv}
+            counters["parameter_changes_between_evaluations"] += 1
+          for iv in (False, True):
+              for by_state in ((False, True) if not iv else (False,)):
+                  if not iv and nP == 0:
+                      continue
+                  label = ("ode_and_sensitivityIV" if iv else "ode_and_sensitivity") + ("(by_state=True)" if by_state else "")
+                  z = np.array(list(x) + [rng.uniform(-2, 2) for _ in range(nS * nP + (nS * nS if iv else 0))], dtype=float)
+                  rr = ref_rhs(ref, th, by_state, iv)
+                  exp = rr(z, t)
+                  try:
+                      with contextlib.redirect_stdout(io.StringIO()):
+                          got = np.asarray(m.ode_and_sensitivityIV(z, t) if iv else m.ode_and_sensitivity(z, t, by_state), dtype=float).reshape(-1)
+                      counters["rhs_checks"] += 1
+                      sc = 1.0 + float(np.max(np.abs(exp)))
+                      if got.shape != exp.shape or not np.all(np.abs(got - exp) <= 1e-10 * sc):
+                          bad("%s differs from [f, vec(J S + G)(, vec(J S0))] in the documented layout" % label, got=got.tolist(), expected=exp.tolist(), round=rnd)
+                  except Exception as e:
+                      bad("%s raised" % label, error=short_exc(e), tb=tb_tail(e))
+                  jl = label.replace("ode_and_sensitivityIV", "ode_and_sensitivityIV_jacobian").replace("ode_and_sensitivity(", "ode_and_sensitivity_jacobian(")
+                  if jl == label:
+                      jl = label + "_jacobian"
+                  try:
+                      with contextlib.redirect_stdout(io.StringIO()):
+                          gotJ = np.asarray(m.ode_and_sensitivityIV_jacobian(z, t) if iv else m.ode_and_sensitivity_jacobian(z, t, by_state), dtype=float)
+                      counters["jacobian_checks"] += 1
+                      expJ = fd_jacobian(rr, z, t)
+                      sc = 1.0 + float(np.max(np.abs(expJ)))
+                      if gotJ.shape != expJ.shape or not np.all(np.abs(gotJ - expJ) <= 1e-5 * sc):
+                          bad("%s is not the derivative of the corresponding right-hand side" % jl, shape=list(gotJ.shape), expected_shape=list(expJ.shape),
+                              max_error=float(np.max(np.abs(gotJ - expJ))) if gotJ.shape == expJ.shape else None, scale=sc, nS=nS, nP=nP)
+                  except Exception as e:
+                      bad("%s raised" % jl, error=short_exc(e), tb=tb_tail(e), nS=nS, nP=nP)
         nontriv = nS >= 2 and nP >= 2 and nP != nS - 1
     else:
         from pygom.model import ode_utils
